@@ -358,3 +358,101 @@ def bank(focus=None, ops=("get", "upload")):
 if __name__ == "__main__":
     import json
     print(json.dumps(bank(), default=str, indent=1))
+
+
+# ---- overlapping calls on ONE client (a proxy location keeps one client for all its requests) -------------------------------
+class StreamTransport:
+    """a connection whose server sends `parts` with pauses; close() behaves like asyncio's: nothing is delivered afterwards"""
+
+    def __init__(self, protocol, parts, gap):
+        self.protocol, self.parts, self.gap = protocol, list(parts), gap
+        self.closed = False
+        self.started = False
+        self.sent = b""
+
+    def write(self, d):
+        self.sent += bytes(d)
+        if not self.started:
+            self.started = True
+            asyncio.get_running_loop().create_task(self._play())
+
+    async def _play(self):
+        for i, part in enumerate(self.parts):
+            if i:
+                await asyncio.sleep(self.gap)
+            if self.closed:
+                return
+            self.protocol.data_received(part)
+        await asyncio.sleep(self.gap)
+        if not self.closed:
+            self.closed = True
+            self.protocol.connection_lost(None)
+
+    def close(self):
+        if not self.closed:
+            self.closed = True
+            asyncio.get_running_loop().call_soon(self.protocol.connection_lost, None)
+
+    def is_closing(self):
+        return self.closed
+
+    def get_extra_info(self, name, default=None):
+        return default
+
+
+def overlap_cases():
+    """two calls overlap on one GeminiClient: each result is a function of its OWN connection's byte stream"""
+    big = b"".join(b"line %d of the slow body\n" % i for i in range(400))
+    streams = {"slow": [b"20 text/gemini\r\n" + big[:3000], big[3000:7000], big[7000:]], "fast": [b"20 text/plain\r\nquick\n"],
+               "slow-header": [b"20 text/g", b"emini\r\n" + big[:2000], big[2000:]]}
+    want = {"slow": (20, big.decode()), "fast": (20, "quick\n"), "slow-header": (20, big.decode())}
+    tried = 0
+    for first, second, second_op in (("slow", "fast", "get"), ("slow-header", "fast", "get"), ("fast", "slow", "get"), ("slow", "fast", "upload"), ("slow", "slow-header", "get")):
+        tried += 1
+        made = []
+
+        async def go():
+            client = GeminiClient(timeout=2.0, trust_on_first_use=False, verify_ssl=False)
+            loop = asyncio.get_running_loop()
+            order = [first, second]
+
+            async def create_connection(factory, host=None, port=None, **kw):
+                proto = factory()
+                which = order[len(made)]
+                t = StreamTransport(proto, streams[which] if not (second_op == "upload" and len(made) == 1) else [b"20 text/plain\r\nquick\n"], 0.03)
+                made.append(t)
+                proto.connection_made(t)
+                if getattr(proto, "send_on_connect", True) is False and hasattr(proto, "send_request"):
+                    pass
+                return t, proto
+            loop.create_connection = create_connection
+
+            async def call(i):
+                try:
+                    if i == 1 and second_op == "upload":
+                        r = await client.upload("gemini://b.example/up", b"DATA", mime_type="text/plain")
+                    else:
+                        r = await client._get_single(f"gemini://{'ab'[i]}.example/doc")
+                    return (r.status, r.body if isinstance(r.body, str) else (r.body or b"").decode("utf-8", "replace"))
+                except Exception as e:  # noqa: BLE001
+                    return ("raise", type(e).__name__ + ": " + str(e)[:80])
+            t1 = asyncio.ensure_future(call(0))
+            await asyncio.sleep(0.01)
+            t2 = asyncio.ensure_future(call(1))
+            res = await asyncio.gather(t1, t2)
+            await asyncio.sleep(0.05)
+            return res
+        res = asyncio.run(go())
+        bad = []
+        for i, (name, r) in enumerate(zip((first, second), res)):
+            w = want[name] if not (i == 1 and second_op == "upload") else (20, "quick\n")
+            if r != w:
+                got = r if r[0] == "raise" else (r[0], f"{len(r[1] or '')} characters of body")
+                bad.append(f"[C13] call {i + 1} ({name} stream) returned {got!r}; its own connection delivered status {w[0]} and {len(w[1])} characters of body")
+        for i, t in enumerate(made):
+            if not t.closed:
+                bad.append(f"[C13] the transport of call {i + 1} was left open")
+        if bad:
+            return dict(confirmed=True, input=dict(client="one GeminiClient, two overlapping calls", first_call=f"get over a {first} stream", second_call=f"{second_op} over a {second} stream, started 10 ms later"),
+                        observed=dict(violated=bad), clause="every call returns the response its own connection delivered (or a clear error), and closes its own transport")
+    return dict(confirmed=False, reason="overlapping calls on one client do not disturb each other", tried=tried)
